@@ -83,12 +83,13 @@ theorem conv_se3_project_se2 (g : Vec α 7) : Conv.project_se2 g = ConvSrc.SE3_p
 
 theorem conv_pins :
     ConvSrc.pin_SO3_quat = "Eigen::Map<const Eigen::Quaternion<Scalar>> quat() const { return Eigen::Map<const Eigen::Quaternion<Scalar>>(static_cast<const _Derived &>(*this).data()); }"
+    ∧ ConvSrc.pin_SO3_eulerAngles = "Eigen::Vector3<Scalar> eulerAngles(Eigen::Index i1 = 2, Eigen::Index i2 = 1, Eigen::Index i3 = 0) const { return quat().toRotationMatrix().eulerAngles(i1, i2, i3); }"
     ∧ ConvSrc.pin_SE2_so2 = "Map<const SO2<Scalar>> so2() const { return Map<const SO2<Scalar>>(static_cast<const _Derived &>(*this).data() + 2); }"
     ∧ ConvSrc.pin_SE2_r2 = "Eigen::Map<const Eigen::Vector2<Scalar>> r2() const { return Eigen::Map<const Eigen::Vector2<Scalar>>(static_cast<const _Derived &>(*this).data()); }"
     ∧ ConvSrc.pin_SE3_so3 = "Map<const SO3<Scalar>> so3() const { return Map<const SO3<Scalar>>(static_cast<const _Derived &>(*this).data() + 3); }"
     ∧ ConvSrc.pin_SE3_r3 = "Eigen::Map<const Eigen::Vector3<Scalar>> r3() const { return Eigen::Map<const Eigen::Vector3<Scalar>>(static_cast<const _Derived &>(*this).data()); }"
     ∧ ConvSrc.pin_SE2_ctor_parts = "SE2(const SO2Base<SO2Derived> & so2, const Eigen::MatrixBase<T2Derived> & r2) { Base::so2() = static_cast<const SO2Derived &>(so2); Base::r2() = static_cast<const T2Derived &>(r2); }"
     ∧ ConvSrc.pin_SE3_ctor_parts = "SE3(const SO3Base<SO3Derived> & so3, const Eigen::MatrixBase<T3Derived> & r3) { Base::so3() = static_cast<const SO3Derived &>(so3); Base::r3() = static_cast<const T3Derived &>(r3); }" := by
-  exact ⟨rfl, rfl, rfl, rfl, rfl, rfl, rfl⟩
+  exact ⟨rfl, rfl, rfl, rfl, rfl, rfl, rfl, rfl⟩
 
 end SrcTieConv
